@@ -45,7 +45,7 @@ static const char* flagclass(uint32_t id, uint8_t flags, int fd)
     return b;
 }
 
-static int run_config(vp_rng_t* r, int tscf, int udp, int fd, int count, int packets)
+static int run_config(vp_rng_t* r, int tscf, int udp, int fd, int count, int packets, int lenmode)
 {
     char cfg[64]; snprintf(cfg, sizeof cfg, "%s+%s+%s", tscf ? "tscf" : "ntscf", udp ? "udp" : "raw", fd ? "fd" : "classic");
     int can[2], net[2], lst[2];
@@ -72,8 +72,9 @@ static int run_config(vp_rng_t* r, int tscf, int udp, int fd, int count, int pac
     int rc = 0;
     uint32_t serial = 0;
     for (int p = 0; p < packets && rc == 0; p++) {
-        frame_t in[64]; memset(in, 0, sizeof in);
-        int fullpkt = (p % 3 == 2);                        /* every third packet: all frames of maximum length (packet filled as far as count allows) */
+        frame_t in[128]; memset(in, 0, sizeof in);
+        int fullpkt = (p % 3 == 2) && lenmode == 0;
+        uint32_t prev_id = 0; uint8_t prev_len = 0; int have_prev = 0;                        /* every third packet: all frames of maximum length (packet filled as far as count allows) */
         for (int i = 0; i < count; i++) {
             uint32_t id; uint8_t flags = 0; uint32_t k = (uint32_t)vp_rng_below(r, 8);
             serial++;
@@ -87,21 +88,28 @@ static int run_config(vp_rng_t* r, int tscf, int udp, int fd, int count, int pac
             case 6: id = 0x1fffffff | CAN_EFF_FLAG; break;
             default: id = (uint32_t)vp_rng_next(r) & 0x7ff; break;
             }
+            /* one frame in four repeats identifier (with its EFF/RTR bits) and length of its predecessor with other data and flags:
+             * whatever a talker remembers of the previous frame must not leak into this one */
+            int rep_prev = have_prev && lenmode == 0 && !fullpkt && vp_rng_below(r, 4) == 0;
+            if (rep_prev) id = prev_id;
             if (fd) {
                 flags = (uint8_t)(vp_rng_below(r, 4) | ((vp_rng_next(r) & 1) ? CANFD_FDF : 0));   /* BRS=1, ESI=2, FDF=4 */
                 if (id & CAN_RTR_FLAG) id &= ~CAN_RTR_FLAG;                                    /* CAN FD has no remote frames */
                 in[i].fd.can_id = id; in[i].fd.flags = flags;
                 static const uint8_t fdlens[] = { 0, 1, 2, 3, 4, 5, 6, 7, 8, 12, 16, 20, 24, 32, 48, 64 };
-                in[i].fd.len = fullpkt ? 64 : (vp_rng_next(r) & 1) ? fdlens[vp_rng_below(r, 16)] : (uint8_t)vp_rng_below(r, 65);
+                in[i].fd.len = lenmode == 1 ? 0 : fullpkt ? 64 : (vp_rng_next(r) & 1) ? fdlens[vp_rng_below(r, 16)] : (uint8_t)vp_rng_below(r, 65);
+                if (rep_prev) in[i].fd.len = prev_len;
                 vp_rng_fill(r, in[i].fd.data, in[i].fd.len);
                 if (in[i].fd.len >= 4) memcpy(in[i].fd.data, &serial, 4);
                 if (send(can[0], &in[i].fd, sizeof(struct canfd_frame), 0) < 0) { rc = 2; break; }
             } else {
-                in[i].cc.can_id = id; in[i].cc.len = fullpkt ? 8 : (uint8_t)vp_rng_below(r, 9);
+                in[i].cc.can_id = id; in[i].cc.len = lenmode == 1 ? 0 : fullpkt ? 8 : (uint8_t)vp_rng_below(r, 9);
+                if (rep_prev) in[i].cc.len = prev_len;
                 vp_rng_fill(r, in[i].cc.data, in[i].cc.len);
                 if (in[i].cc.len >= 4) memcpy(in[i].cc.data, &serial, 4);
                 if (send(can[0], &in[i].cc, sizeof(struct can_frame), 0) < 0) { rc = 2; break; }
             }
+            prev_id = fd ? in[i].fd.can_id : in[i].cc.can_id; prev_len = fd ? in[i].fd.len : in[i].cc.len; have_prev = 1;
             n_frames++;
         }
         if (rc) break;
@@ -120,8 +128,8 @@ static int run_config(vp_rng_t* r, int tscf, int udp, int fd, int count, int pac
             viol(cfg, "announced-length-differs", d, 0, 0, fd, pkt, (size_t)pn);
         }
         /* through the real listener */
-        frame_t out[64]; size_t sizes[64];
-        int k = tunl_packet(lst[0], lst[1], pkt, (size_t)pn, out, sizes, 64);
+        frame_t out[128]; size_t sizes[128];
+        int k = tunl_packet(lst[0], lst[1], pkt, (size_t)pn, out, sizes, 128);
         n_evals++;
         if (k != count) {
             char d[96]; snprintf(d, sizeof d, "%d frames in, %d frames out", count, k);
@@ -172,11 +180,15 @@ int main(void)
         int maxfit = (1500 - (udp ? 4 : 0) - (tscf ? 24 : 12)) / (fd ? 80 : 24);        /* maximum-length frames that fit the talker's buffer */
         for (int c = 0; c < 7; c++) {
             int count = c == 5 ? maxfit : c == 6 ? 2 + (int)vp_rng_below(&r, (uint64_t)maxfit - 2) : fd ? counts_fd[c] : counts_cc[c];
-            int e = run_config(&r, tscf, udp, fd, count, packets);
+            int e = run_config(&r, tscf, udp, fd, count, packets, 0);
+            if (e) rc = e;
+        }
+        {   /* as many data-less frames as the talker's buffer holds (16-byte messages: up to 93 in one packet) */
+            int e = run_config(&r, tscf, udp, fd, (1500 - (udp ? 4 : 0) - (tscf ? 24 : 12)) / 16, packets < 6 ? packets : 6, 1);
             if (e) rc = e;
         }
         if ((int)(seed % 8) == tscf * 4 + udp * 2 + fd) {   /* one long stream per run: sequence numbers wrap, state accumulates */
-            int e = run_config(&r, tscf, udp, fd, 1 + (int)(seed / 8 % 3), 600);
+            int e = run_config(&r, tscf, udp, fd, 1 + (int)(seed / 8 % 3), 600, 0);
             if (e) rc = e;
         }
     }
